@@ -2,44 +2,66 @@ package main
 
 import (
 	"fmt"
-	"go/types"
+	"go/token"
 	"sort"
 	"strings"
 
 	"golang.org/x/tools/go/ssa"
 )
 
-func init() { if false { rules["C11"] = ruleC11 } }
+func init() { rules["C11"] = ruleC11 }
 
-// sharedOwners: struct types reachable from more than one goroutine.
+// sharedOwners: struct types whose objects are reachable from more than one goroutine.
 var sharedOwners = map[string]bool{
 	"upf": true, "UP4": true, "bess": true, "PFCPNode": true, "PFCPConn": true, "PFCPIface": true,
 	"IPPool": true, "FTEIDGenerator": true, "downlinkDataNotifier": true, "P4rtClient": true,
 	"P4rtTranslator": true, "InMemoryStore": true, "ConfigHandler": true, "Service": true,
 }
 
-// confinedTo: objects of the type are created per goroutine instance of the named root; several
-// instances of that root do not share one object.
-var confinedTo = map[string][]string{
-	"PFCPConn": {"pfcpiface.(*PFCPConn).Serve", "pfcpiface.(*PFCPConn).Serve$1", "pfcpiface.(*PFCPConn).startHeartBeatMonitor", "pfcpiface.(*PFCPConn).sendAssociationRequest"},
-	"downlinkDataNotifier": {"pfcpiface.(*bess).notifyListen", "pfcpiface.(*UP4).listenToDDNs"},
+// perInstanceRoots: goroutine roots that are started once per object of the type and only touch
+// their own object through their receiver; two instances of such a root do not share the object.
+var perInstanceRoots = map[string]map[string]bool{
+	"PFCPConn": {
+		"pfcpiface.(*PFCPConn).Serve": true, "pfcpiface.(*PFCPConn).Serve$1": true,
+		"pfcpiface.(*PFCPConn).startHeartBeatMonitor": true, "pfcpiface.(*PFCPConn).sendAssociationRequest": true,
+	},
+	"downlinkDataNotifier": {"pfcpiface.(*bess).notifyListen": true, "pfcpiface.(*UP4).listenToDDNs": true},
 }
 
+// assocRoot: goroutines that process PFCP messages of an association.
 var assocRoot = map[string]bool{
 	"pfcpiface.(*PFCPConn).Serve": true, "pfcpiface.(*PFCPConn).Serve$1": true,
 	"pfcpiface.(*PFCPConn).startHeartBeatMonitor": true, "pfcpiface.(*PFCPConn).sendAssociationRequest": true,
 	"pfcpiface.(*PFCPNode).handleNewPeers": true,
 }
 
-type conflict struct {
-	owner, field string
-	a, b         fieldAccess
-	ra, rb       *goRoot
+// constructedBy: objects of the type are built and initialised inside the dynamic extent of the
+// named function and published only by its return value.
+var constructedBy = map[string]string{
+	"P4rtClient": "pfcpiface.CreateChannel",
+}
+
+type raceSide struct {
+	a    fieldAccess
+	root *goRoot
+}
+
+type raceResult struct {
+	owner, path string
+	accesses    int
+	writes      int
+	how         string // why it is fine
+	x, y        *raceSide
 }
 
 func ruleC11(w *World, r *Report) {
 	const P = "C11"
-	r.Explanation = "probe"
+	r.Explanation = "R11.1 static lockset (Eraser's discipline over goroutine contexts): for every field path of the objects shared between goroutines that is written after publication, any two accesses that can run concurrently — different goroutine roots, or two instances of a per-association root — and of which one is a write hold a common mutex (exclusively on the writing side). Contexts: main, every go statement target, HTTP handlers; accesses are paired only when an association goroutine is involved. " +
+		"Exemptions, each checked structurally: fresh object in its constructor; start-up code run by main before Serve; constructor extent (P4rtClient inside CreateChannel); pre-publication use of a new PFCPConn by handleNewPeers (NewPFCPConn publishes last); writes that precede the go statement starting the other side; per-connection confinement of PFCPConn. " +
+		"R11.2 every function returns with the lockset it was entered with. R11.3 atomic sections for the shared UP4 objects (tunnel peers, applications): a guarded write that depends on a guarded read re-reads it in its own critical section. " +
+		"R11.4 BESS fan-out: per-call completion channel, one goroutine per rule on every path of each worker starter, one completion per goroutine on every path, the count joined is the number started. R11.5 math/rand generators are created fresh in the constructor of a per-connection object and used only from that connection's goroutine."
+	r.NotDecided = "linearizability of compound operations beyond R11.3; instances of a struct type are not distinguished except by the per-instance root table; start-up races between goroutines launched during initialisation and the rest of initialisation; the HTTP handlers among themselves"
+
 	la := w.Locks()
 	var roots []*goRoot
 	for _, rt := range w.goroutineRoots() {
@@ -48,41 +70,114 @@ func ruleC11(w *World, r *Report) {
 		}
 		roots = append(roots, rt)
 	}
+	r.floor("R11.1 goroutine roots", len(roots), 15)
 	ctx := w.contextsOf(roots)
-	accs := w.accessesOf(sharedOwners)
-	// init phase: functions the main goroutine runs before it starts serving, and nothing else runs
 	var mainRoot *goRoot
 	for _, rt := range roots {
 		if rt.why == "program entry" {
 			mainRoot = rt
 		}
 	}
+	if mainRoot == nil {
+		brokenf(P, "R11.1", "main not found")
+	}
+	cg := w.CG()
 	serve := w.Fn(P, "pfcpiface.(*PFCPNode).Serve")
-	servePhase := w.CG().Reachable([]*ssa.Function{serve}, func(e *Edge) bool { return e.Kind != "go" })
+	servePhase := cg.Reachable([]*ssa.Function{serve}, func(e *Edge) bool { return e.Kind != "go" })
 	isInit := func(f *ssa.Function) bool {
 		cs := ctx[f]
 		return len(cs) == 1 && cs[0] == mainRoot && !servePhase[f]
 	}
-	for _, rt := range roots {
-		fmt.Printf("root %-60s multi=%v %s\n", rt.name, rt.multi, rt.why)
+	// constructor extents
+	extentOnly := map[string]map[*ssa.Function]bool{}
+	for typ, cn := range constructedBy {
+		c := w.Fn(P, cn)
+		set := map[*ssa.Function]bool{}
+		for changed := true; changed; {
+			changed = false
+			for _, f := range w.Funcs {
+				if set[f] || f == c || len(cg.In[f]) == 0 {
+					continue
+				}
+				all := true
+				for _, e := range cg.In[f] {
+					if e.Caller != c && !set[e.Caller] {
+						all = false
+					}
+					if e.Kind == "go" {
+						all = false
+					}
+				}
+				if all {
+					set[f] = true
+					changed = true
+				}
+			}
+		}
+		set[c] = true
+		extentOnly[typ] = set
+		// the constructor publishes by returning: the fresh object is not stored anywhere before
+		r.check(publishesByReturn(c), "R11.1", cn, "objects of "+typ+" are published only by the constructor's return value", w.Pos(c.Pos()), "no store/send of the fresh object", typ+" escapes from "+cn+" before it is fully initialised")
 	}
-	type key struct{ owner, fld string }
+	// pre-publication of PFCPConn in NewPFCPConn
+	newConn := w.Fn(P, "pfcpiface.(*PFCPNode).NewPFCPConn")
+	prepub := connPublishedLast(w, r, newConn)
+
+	// go sites per root, for the fork rule
+	goSites := map[*ssa.Function][]*Edge{}
+	for _, f := range w.Funcs {
+		for _, e := range cg.Out[f] {
+			if e.Kind == "go" {
+				goSites[e.Callee] = append(goSites[e.Callee], e)
+			}
+		}
+	}
+	forkOrdered := func(a fieldAccess, other *goRoot) bool {
+		// a happens before everything `other` does if every go statement that starts `other` sits in a.fn
+		// and a precedes it
+		sites := goSites[other.fn]
+		if len(sites) == 0 {
+			return false
+		}
+		for _, e := range sites {
+			if e.Caller != a.fn || !instrBefore(a.ins, e.Site) {
+				return false
+			}
+		}
+		return true
+	}
+
+	type key struct{ owner, path string }
 	by := map[key][]fieldAccess{}
-	for _, a := range accs {
+	total := 0
+	for _, a := range w.accessesOf(sharedOwners) {
+		total++
+		owner := a.owner.Obj().Name()
 		if a.fresh || isInit(a.fn) || len(ctx[a.fn]) == 0 {
 			continue
 		}
-		k := key{a.owner.Obj().Name(), a.path}
+		if ext, ok := extentOnly[owner]; ok && ext[a.fn] {
+			continue
+		}
+		k := key{owner, a.path}
 		by[k] = append(by[k], a)
 	}
+	r.floor("R11.1 field accesses of shared objects", total, 300)
 	var keys []key
 	for k := range by {
 		keys = append(keys, k)
 	}
-	sort.Slice(keys, func(i, j int) bool { return keys[i].owner+keys[i].fld < keys[j].owner+keys[j].fld })
+	sort.Slice(keys, func(i, j int) bool { return keys[i].owner+"."+keys[i].path < keys[j].owner+"."+keys[j].path })
 	for _, k := range keys {
 		as := by[k]
-		var cf *conflict
+		res := raceResult{owner: k.owner, path: k.path, accesses: len(as)}
+		for _, a := range as {
+			if a.write {
+				res.writes++
+			}
+		}
+		locks := map[string]bool{}
+	pairs:
 		for i := range as {
 			if !as[i].write {
 				continue
@@ -90,54 +185,410 @@ func ruleC11(w *World, r *Report) {
 			for j := range as {
 				a, b := as[i], as[j]
 				ha, hb := la.heldAt[a.ins], la.heldAt[b.ins]
-				prot := false
+				prot := ""
 				for mu, m := range ha {
 					if m == modeW {
 						if _, ok := hb[mu]; ok {
-							prot = true
+							prot = mu.Name()
 						}
 					}
 				}
-				if prot {
+				if prot != "" {
+					locks[prot] = true
 					continue
 				}
 				for _, ra := range ctx[a.fn] {
 					for _, rb := range ctx[b.fn] {
-						conc := ra != rb || ra.multi
 						if !assocRoot[ra.name] && !assocRoot[rb.name] {
+							continue
+						}
+						conc := ra != rb || ra.multi
+						if ra == rb && perInstanceRoots[k.owner][ra.name] {
 							conc = false
 						}
-						if k.owner == "PFCPConn" && (ra.name == "pfcpiface.(*PFCPNode).handleNewPeers" || rb.name == "pfcpiface.(*PFCPNode).handleNewPeers") {
-							conc = false // pre-publication (checked separately)
+						if k.owner == "PFCPConn" && prepub && (ra.name == "pfcpiface.(*PFCPNode).handleNewPeers" || rb.name == "pfcpiface.(*PFCPNode).handleNewPeers") {
+							conc = false
 						}
-						if ra == rb && ra.multi {
-							for _, c := range confinedTo[k.owner] {
-								if c == ra.name {
-									conc = false
-								}
-							}
+						if conc && ra != rb && (forkOrdered(a, rb) || forkOrdered(b, ra)) {
+							conc = false
 						}
-						if conc && cf == nil {
-							cf = &conflict{k.owner, k.fld, a, b, ra, rb}
+						if conc {
+							res.x, res.y = &raceSide{a, ra}, &raceSide{b, rb}
+							break pairs
 						}
 					}
 				}
 			}
 		}
-		nW := 0
-		for _, a := range as {
-			if a.write {
-				nW++
+		construct := k.owner + "." + k.path + ": concurrent accesses share a lock"
+		if res.x == nil {
+			how := ""
+			switch {
+			case res.writes == 0:
+				how = fmt.Sprintf("%d accesses, none writes after publication", res.accesses)
+			case len(locks) > 0:
+				var ls []string
+				for l := range locks {
+					ls = append(ls, l)
+				}
+				sort.Strings(ls)
+				how = fmt.Sprintf("%d accesses, %d writes, conflicting pairs hold %s", res.accesses, res.writes, strings.Join(ls, ","))
+			default:
+				how = fmt.Sprintf("%d accesses, %d writes, no two of them can run concurrently (one context / ordered by go / confined)", res.accesses, res.writes)
+			}
+			if res.writes == 0 {
+				r.trivial("R11.1", k.owner, construct, "", how)
+			} else {
+				r.ok("R11.1", k.owner, construct, "", how)
+			}
+			continue
+		}
+		x, y := res.x, res.y
+		r.bad("R11.1", k.owner, construct, w.Pos(x.a.ins.Pos()), fmt.Sprintf("data race on %s.%s: %s in %s (goroutine %s, lockset %s) and %s in %s at %s (goroutine %s%s, lockset %s) can run concurrently with no common mutex",
+			k.owner, k.path, x.a.what, w.FuncName(x.a.fn), shortRoot(x.root.name), la.heldAt[x.a.ins], y.a.what, w.FuncName(y.a.fn), w.Pos(y.a.ins.Pos()), shortRoot(y.root.name), ifelse(x.root == y.root, ", another instance", ""), la.heldAt[y.a.ins]))
+	}
+
+	// ---------- R11.2 balanced locking
+	nb := 0
+	for _, f := range w.Funcs {
+		hasOp := false
+		allInstrs(f, func(i ssa.Instruction) {
+			if c, ok := i.(ssa.CallInstruction); ok {
+				if _, _, _, ok := lockOp(c); ok {
+					hasOp = true
+				}
+			}
+		})
+		if !hasOp || strings.HasPrefix(w.FuncName(f), "test/") {
+			continue
+		}
+		nb++
+		bad := la.exitBad[f]
+		r.check(len(bad) == 0, "R11.2", w.FuncName(f), "returns with the lockset it was entered with", w.Pos(f.Pos()), "balanced", "a path leaves the function with a different lockset (missing unlock on an early return, or unlock of a lock not held): "+strings.Join(bad, "; "))
+	}
+	r.floor("R11.2 functions with lock operations", nb, 15)
+
+	// ---------- R11.3 atomic sections for the shared UP4 objects
+	n3 := 0
+	for _, spec := range []struct {
+		fields map[string]bool
+		mutex  string
+	}{
+		{map[string]bool{"tunnelPeerIDs": true, "tunnelPeerIDsPool": true}, "tunnelPeerMu"},
+		{map[string]bool{"applicationIDs": true, "applicationIDsPool": true}, "applicationMu"},
+	} {
+		n3 += guardedBy(w, r, "R11.3", "UP4", spec.fields, spec.mutex, func(a fieldAccess) bool { return isInit(a.fn) })
+		fns := map[*ssa.Function]bool{}
+		for _, a := range w.accessesOf(map[string]bool{"UP4": true}) {
+			if spec.fields[a.fld.Name()] && !a.fresh && !isInit(a.fn) {
+				fns[a.fn] = true
 			}
 		}
-		if cf != nil {
-			fmt.Printf("RACE %s.%s: %s in %s [%s] held=%s  vs %s in %s [%s] held=%s\n", k.owner, k.fld, cf.a.what, w.FuncName(cf.a.fn), cf.ra.name, la.heldAt[cf.a.ins], cf.b.what, w.FuncName(cf.b.fn), cf.rb.name, la.heldAt[cf.b.ins])
-		} else {
-			fmt.Printf("ok   %s.%s: %d accesses, %d writes\n", k.owner, k.fld, len(as), nW)
+		for _, f := range sortedFuncs(w, fns) {
+			atomicSections(w, r, "R11.3", f, "UP4", spec.fields, spec.mutex)
 		}
 	}
-	for f, bad := range la.exitBad {
-		fmt.Println("UNBALANCED", w.FuncName(f), strings.Join(bad, "; "))
+	r.floor("R11.3 guarded accesses to shared UP4 objects", n3, 20)
+
+	ruleC11Fanout(w, r)
+	ruleC11Rand(w, r, ctx)
+}
+
+func shortRoot(s string) string {
+	return strings.TrimPrefix(s, "pfcpiface.")
+}
+
+// publishesByReturn: the fresh struct allocated in c is not stored to memory, sent or handed to a
+// go statement; it only flows to method calls on itself and to the return.
+func publishesByReturn(c *ssa.Function) bool {
+	okAll := true
+	allInstrs(c, func(i ssa.Instruction) {
+		al, isAl := i.(*ssa.Alloc)
+		if !isAl || !al.Heap || al.Referrers() == nil {
+			return
+		}
+		if _, isStruct := derefType(al.Type()).Underlying().(interface{ NumFields() int }); !isStruct {
+			return
+		}
+		for _, ref := range *al.Referrers() {
+			switch x := ref.(type) {
+			case *ssa.Store:
+				if x.Val == ssa.Value(al) {
+					if _, local := x.Addr.(*ssa.Alloc); !local {
+						okAll = false
+					}
+				}
+			case *ssa.Send, *ssa.Go:
+				okAll = false
+			case *ssa.MakeClosure:
+				// closures defined in the constructor may capture it (run inside the extent)
+			}
+		}
+	})
+	return okAll
+}
+
+// connPublishedLast: in NewPFCPConn nothing touches the new connection after it became visible to
+// other goroutines (go p.Serve(), pConns.Store).
+func connPublishedLast(w *World, r *Report, f *ssa.Function) bool {
+	fn := w.FuncName(f)
+	var conn *ssa.Alloc
+	allInstrs(f, func(i ssa.Instruction) {
+		if al, ok := i.(*ssa.Alloc); ok && al.Heap && rootTypeName(al.Type()) == "PFCPConn" {
+			conn = al
+		}
+	})
+	if conn == nil {
+		r.bad("R11.1", fn, "pre-publication use of a new connection", w.Pos(f.Pos()), "the PFCPConn literal was not found")
+		return false
 	}
-	_ = types.Typ
+	var pubs []ssa.Instruction
+	allInstrs(f, func(i ssa.Instruction) {
+		switch x := i.(type) {
+		case *ssa.Go:
+			for _, a := range x.Call.Args {
+				if a == ssa.Value(conn) {
+					pubs = append(pubs, i)
+				}
+			}
+		case *ssa.Call:
+			if strings.HasSuffix(calleeName(x), "sync.Map).Store") {
+				for _, a := range x.Call.Args {
+					if mi, ok := a.(*ssa.MakeInterface); ok && mi.X == ssa.Value(conn) {
+						pubs = append(pubs, i)
+					}
+				}
+			}
+		}
+	})
+	if len(pubs) == 0 {
+		r.bad("R11.1", fn, "pre-publication use of a new connection", w.Pos(f.Pos()), "publication points not found")
+		return false
+	}
+	okAll := true
+	for _, p := range pubs {
+		// after a publication point: only other publication points, logging and the return may follow
+		hit := reach(f, p, func(i ssa.Instruction) bool {
+			if i == p {
+				return false
+			}
+			for _, q := range pubs {
+				if i == q {
+					return false
+				}
+			}
+			switch x := i.(type) {
+			case *ssa.Call:
+				for _, a := range x.Call.Args {
+					if a == ssa.Value(conn) {
+						return true
+					}
+				}
+			case *ssa.FieldAddr:
+				return x.X == ssa.Value(conn)
+			}
+			return false
+		}, nil, nil)
+		if hit != nil {
+			okAll = false
+		}
+	}
+	r.check(okAll, "R11.1", fn, "a new connection is made visible to other goroutines only after NewPFCPConn is done with it", w.Pos(f.Pos()), "publication last", "NewPFCPConn keeps using the connection after go p.Serve() / pConns.Store(): its accesses race with the connection's own goroutine")
+	return okAll
+}
+
+func ruleC11Fanout(w *World, r *Report) {
+	const P = "C11"
+	f := w.Fn(P, "pfcpiface.(*bess).SendMsgToUPF")
+	fn := w.FuncName(f)
+	join := w.Fn(P, "pfcpiface.(*bess).GRPCJoin")
+	var mk *ssa.MakeChan
+	allInstrs(f, func(i ssa.Instruction) {
+		if m, ok := i.(*ssa.MakeChan); ok {
+			mk = m
+		}
+	})
+	jc := callsTo(f, join)
+	if len(jc) != 1 {
+		r.bad("R11.4", fn, "one join per request", w.Pos(f.Pos()), fmt.Sprintf("%d calls of GRPCJoin", len(jc)))
+		return
+	}
+	jcall := jc[0].(*ssa.Call)
+	done := jcall.Call.Args[3]
+	r.check(mk != nil && done == ssa.Value(mk), "R11.4", fn, "the completion channel is created by this call", w.Pos(jcall.Pos()), "make(chan bool) in SendMsgToUPF", "the completion channel joined on is "+symOf(done).String()+": completions of other requests in flight are counted for this one (and the other request waits for completions that never come)")
+	// workers
+	workers := map[*ssa.Function]bool{}
+	nCalls := 0
+	allInstrs(f, func(i ssa.Instruction) {
+		c, ok := i.(*ssa.Call)
+		if !ok {
+			return
+		}
+		g := staticCallee(c)
+		if g == nil || g == join || !w.isRepoFunc(g) || len(g.Params) < 3 {
+			return
+		}
+		hasChan := false
+		for ai, a := range c.Call.Args {
+			if a == done || (isChangeTypeOf(a, done)) {
+				hasChan = true
+				_ = ai
+			}
+		}
+		if !hasChan {
+			return
+		}
+		nCalls++
+		workers[g] = true
+	})
+	r.floor("R11.4 worker starts in SendMsgToUPF", nCalls, 6)
+	for _, g := range sortedFuncs(w, workers) {
+		gn := w.FuncName(g)
+		// exactly one go statement on every path
+		var gos []*ssa.Go
+		allInstrs(g, func(i ssa.Instruction) {
+			if x, ok := i.(*ssa.Go); ok {
+				gos = append(gos, x)
+			}
+		})
+		if len(gos) != 1 {
+			r.bad("R11.4", gn, "one goroutine per rule", w.Pos(g.Pos()), fmt.Sprintf("%d go statements", len(gos)))
+			continue
+		}
+		every := true
+		for _, ret := range returnsOf(g) {
+			if mustPass(g, nil, func(i ssa.Instruction) bool { return i == ssa.Instruction(ret) }, func(i ssa.Instruction) bool { return i == ssa.Instruction(gos[0]) }) != nil {
+				every = false
+			}
+		}
+		inLoop := false
+		for _, s := range gos[0].Block().Succs {
+			if reachesBlock(s, gos[0].Block()) {
+				inLoop = true
+			}
+		}
+		r.check(every && !inLoop, "R11.4", gn, "exactly one goroutine is started per call", w.Pos(gos[0].Pos()), "on every path, not in a loop", "a path of "+g.Name()+" starts no goroutine (the join waits for the timeout) or several")
+		cl := closureOf(gos[0].Call.Value)
+		if cl == nil {
+			r.bad("R11.4", gn, "worker body is a closure", w.Pos(gos[0].Pos()), "cannot resolve the goroutine body")
+			continue
+		}
+		// in the closure: one send on the captured done channel on every path to a return
+		var sends []*ssa.Send
+		allInstrs(cl, func(i ssa.Instruction) {
+			if s, ok := i.(*ssa.Send); ok {
+				sends = append(sends, s)
+			}
+		})
+		chanParam := false
+		for _, s := range sends {
+			v := throughFreeVar(s.Chan)
+			for _, p := range g.Params {
+				if v == ssa.Value(p) {
+					chanParam = true
+				}
+			}
+		}
+		r.check(len(sends) >= 1 && chanParam, "R11.4", w.FuncName(cl), "the worker reports on the channel it was given", w.Pos(cl.Pos()), "send on the done parameter", "the worker does not send on its done parameter")
+		isSend := func(i ssa.Instruction) bool { _, ok := i.(*ssa.Send); return ok }
+		once := true
+		// no path with two sends (a path without a completion only delays this request until the join's
+		// timeout; it does not touch other requests and is not part of this property)
+		for _, s := range sends {
+			if reach(cl, s, func(i ssa.Instruction) bool { return isSend(i) }, nil, nil) != nil {
+				once = false
+			}
+		}
+		r.check(once, "R11.4", w.FuncName(cl), "no worker path completes twice", w.Pos(cl.Pos()), "at most one send per path", "a worker path reports twice: the join of this request returns while a rule is still being written")
+	}
+	// calls = len(pdrs)+len(fars)+len(qers) of the lists iterated, and is what the join counts
+	cs := symOf(jcall.Call.Args[1]).String()
+	r.check(strings.Count(cs, "len(") == 3, "R11.4", fn, "the join counts one completion per rule", w.Pos(jcall.Pos()), cs, "the join count is "+cs)
+	// GRPCJoin counts down by one per completion and returns true at zero only
+	dec := false
+	allInstrs(join, func(i ssa.Instruction) {
+		if bo, ok := i.(*ssa.BinOp); ok && bo.Op == token.SUB {
+			if k, isK := constInt(bo.Y); isK && k == 1 {
+				dec = true
+			}
+		}
+	})
+	r.check(dec, "R11.4", w.FuncName(join), "one completion is consumed per receive", w.Pos(join.Pos()), "calls--", "GRPCJoin does not count down by one")
+	for _, ret := range returnsOf(join) {
+		v, isK := constBool(res(ret, 0))
+		if isK && v {
+			g := onlyVia(join, ret, func(a, b *ssa.BasicBlock) bool {
+				_, op, y, ok := edgeFact(a, b)
+				k, isC := constInt(y)
+				return ok && op == token.EQL && isC && k == 0
+			})
+			r.check(g, "R11.4", w.FuncName(join), "joined only when the count reached zero", w.Pos(ret.Pos()), "under calls == 0", "GRPCJoin reports success before all completions arrived")
+		}
+	}
+}
+
+func isChangeTypeOf(a, v ssa.Value) bool {
+	if ct, ok := a.(*ssa.ChangeType); ok {
+		return ct.X == v
+	}
+	return false
+}
+
+func ruleC11Rand(w *World, r *Report, ctx map[*ssa.Function][]*goRoot) {
+	n := 0
+	for _, f := range w.Funcs {
+		if strings.HasPrefix(w.FuncName(f), "test/") {
+			continue
+		}
+		f := f
+		allInstrs(f, func(i ssa.Instruction) {
+			st, ok := i.(*ssa.Store)
+			if !ok {
+				return
+			}
+			fa, ok := st.Addr.(*ssa.FieldAddr)
+			if !ok || fieldVar(fa) == nil {
+				return
+			}
+			if fieldVar(fa).Type().String() != "*math/rand.Rand" {
+				return
+			}
+			n++
+			owner := rootTypeName(fa.X.Type())
+			c, isCall := st.Val.(*ssa.Call)
+			fresh := isCall && calleeName(c) == "math/rand.New" && isFreshAlloc(fa.X)
+			r.check(fresh, "R11.5", w.FuncName(f), owner+"."+fieldVar(fa).Name()+" is a generator created for this object", w.Pos(st.Pos()), "rand.New(...) stored into the object under construction", owner+"."+fieldVar(fa).Name()+" is set to "+symOf(st.Val).String()+": a *rand.Rand made by rand.New is not safe for concurrent use, and this one is shared between objects used from different goroutines")
+			r.check(len(perInstanceRoots[owner]) > 0, "R11.5", w.FuncName(f), owner+" is a per-goroutine object", w.Pos(st.Pos()), "listed as per-instance", "a *rand.Rand is kept in "+owner+", which is shared between goroutines")
+		})
+	}
+	r.floor("R11.5 generator fields", n, 1)
+	// uses
+	for _, f := range w.Funcs {
+		f := f
+		allInstrs(f, func(i ssa.Instruction) {
+			c, ok := i.(*ssa.Call)
+			if !ok || !strings.HasPrefix(calleeName(c), "(*math/rand.Rand).") {
+				return
+			}
+			recv := c.Call.Args[0]
+			u, isLoad := recv.(*ssa.UnOp)
+			if !isLoad {
+				return
+			}
+			fa, isFA := u.X.(*ssa.FieldAddr)
+			if !isFA {
+				return
+			}
+			owner := rootTypeName(fa.X.Type())
+			okCtx := true
+			var badRoot string
+			for _, rt := range ctx[f] {
+				if !perInstanceRoots[owner][rt.name] && rt.name != "pfcpiface.(*PFCPNode).handleNewPeers" {
+					okCtx = false
+					badRoot = rt.name
+				}
+			}
+			r.check(okCtx, "R11.5", w.FuncName(f), "the generator is used only from its connection's goroutine", w.Pos(c.Pos()), "per-connection contexts", "the generator is also used from goroutine "+badRoot)
+		})
+	}
 }
